@@ -294,6 +294,23 @@ def access(rep, f, c, names):
         if not ok:
             r.violation("generator", where(b["body"]) if b else "", "generator does not emit built-ins for "
                         "unicode_property_names()")
+    # who may call by_name: the lookup tables hold properties pest does not advertise (BIDI_MIRRORED, INCB, ..), so the
+    # front-end (validator, generator) must decide by the advertised list only; the VM's fallback runs after validation
+    ncallers = 0
+    for crate in (meta, gen):
+        if crate is None:
+            continue
+        for fn in crate.bodies:
+            if "::tests::" in fn["path"] or fn.get("body") is None:
+                continue
+            for x in walk(fn["body"]):
+                if kind(x) in ("Call", "MethodCall") and callee(x) == U + "::by_name":
+                    ncallers += 1
+                    r.violation("by_name-caller:%s" % fn["path"], where(x),
+                                "%s consults unicode::by_name: a name that is in the lookup tables but not in "
+                                "unicode_property_names() (e.g. BIDI_MIRRORED) is then accepted by the front-end although "
+                                "generated code has no such built-in" % fn["path"])
+    r.instance("by_name-callers-in-front-end", "", str(ncallers))
     hard = set()
     if vm is not None:
         b = vm.fn("pest_vm::Vm::parse_rule")
